@@ -582,6 +582,18 @@ func (r *dRun) config() {
 	if r.scenario == scFatal {
 		r.viaLogger = true
 	}
+	if r.scenario == scNormal && c.Chance(1, 100) {
+		// a long history: one producer bursts hundreds of messages into a tiny ring in front of
+		// an interleaving consumer - hundreds of separate drop reports within one simulated second
+		r.ring = 1 + c.Intn(2)
+		r.nProd = 1
+		r.nWrites = 150 + c.Intn(100)
+		r.gap = 1
+		r.sinkKind = 0
+		r.viaLogger, r.reentrant, r.neighbour = false, false, false
+		zsim.Probe("long_burst")
+		return
+	}
 	if r.scenario == scNormal && c.Chance(1, 12) {
 		// a writer that is created and closed without ever being written to (a per-level
 		// writer whose level never occurred)
